@@ -77,11 +77,11 @@ NAMES = sorted(OPS)
 PRIMITIVE = ["Sgate", "Rgate", "Dgate", "BSgate", "LossChannel", "ThermalLossChannel"]
 DECOMPOSED = ["MZgate", "S2gate", "Xgate", "Zgate", "CXgate", "CZgate", "Pgate", "Fouriergate"]
 HIST_NAMES = PRIMITIVE * 3 + [x for x in DECOMPOSED if x != "Fouriergate"]
-EXPRS = ["2*p", "-p", "p+0.25", "p**2"]
+EXPRS = ["2*p", "-p", "p+0.25", "p**2", "p+q", "p*q-0.125"]     # the last two involve a second loop variable q = p[k2]
 
 
-def expr_value(e, v):
-    return [2 * v, -v, v + 0.25, v ** 2][e]
+def expr_value(e, v, w=0.0):
+    return [2 * v, -v, v + 0.25, v ** 2, v + w, v * w - 0.125][e]
 
 
 def draw(rng, kind):
@@ -101,7 +101,7 @@ def starts_of(N):
 
 
 def gen_spec(rng, physical=False, allow_flags=True, allow_expr=True, shift_kinds=("default", "int"), max_bands=3,
-             max_N=4, max_T=6, single_band=False, names=None, wellformed=True):
+             max_N=4, max_T=6, single_band=False, names=None, wellformed=True, meas_kind=None):
     """A TDM program spec.  wellformed: every band's leading position(s) are measured by the last
     command touching them (the property's hypothesis)."""
     nb = 1 if single_band else rng.choice([1, 1, 2, 2, 3][: 2 * max_bands - 1])
@@ -137,7 +137,11 @@ def gen_spec(rng, physical=False, allow_flags=True, allow_expr=True, shift_kinds
             if u < 0.35 and k in "ar":
                 params.append({"p": rng.randrange(narr)})
             elif u < 0.42 and k in "ar" and allow_expr:
-                params.append({"p": rng.randrange(narr), "expr": rng.randrange(len(EXPRS))})
+                e = rng.randrange(len(EXPRS))
+                pv = {"p": rng.randrange(narr), "expr": e}
+                if e >= 4:
+                    pv["p2"] = rng.randrange(narr)
+                params.append(pv)
             else:
                 params.append(draw(rng, k))
         dag = bool(dagable and allow_flags and rng.random() < 0.2)
@@ -151,6 +155,8 @@ def gen_spec(rng, physical=False, allow_flags=True, allow_expr=True, shift_kinds
         rng.shuffle(rng_meas)
     for pos in rng_meas:
         kind = "MeasureHomodyne" if physical or rng.random() < 0.75 else rng.choice(["MeasureHeterodyne", "MeasureFock"])
+        if meas_kind:
+            kind = meas_kind
         params = []
         if kind == "MeasureHomodyne":
             params = [{"p": rng.randrange(narr)} if rng.random() < 0.5 else draw(rng, "a")]
@@ -200,7 +206,8 @@ def sym_param(pv, p):
     if isinstance(pv, dict):
         s = p[pv["p"]]
         if "expr" in pv:
-            return [2 * s, -s, s + 0.25, s ** 2][pv["expr"]]
+            w = p[pv["p2"]] if "p2" in pv else 0
+            return [2 * s, -s, s + 0.25, s ** 2, s + w, s * w - 0.125][pv["expr"]]
         return s
     return pv
 
@@ -245,7 +252,8 @@ def param_value(spec, pv, g):
     if isinstance(pv, dict):
         v = spec["arrays"][pv["p"]][g % T]
         if "expr" in pv:
-            return expr_value(pv["expr"], v)
+            w = spec["arrays"][pv["p2"]][g % T] if "p2" in pv else 0.0
+            return expr_value(pv["expr"], v, w)
         return v
     return pv
 
@@ -334,11 +342,29 @@ class Inject:
         # post_select_homodyne draws the unresolved conjugate quadrature with np.random.normal: make it deterministic
         self.orig_normal = np.random.normal
         np.random.normal = lambda loc=0.0, scale=1.0, size=None: (loc if size is None else np.full(size, loc))
+        # MeasureFock on the gaussian backend: hafnian_sample_state(cov, shots, mean=...) -> inject photon numbers
+        import strawberryfields.backends.gaussianbackend.backend as _gb
+        self._gb = _gb
+        self.orig_haf = _gb.hafnian_sample_state
+
+        def fake_haf(cov, shots=1, mean=None, **kw):
+            cov = np.array(cov, float)
+            v = fock_value(outer.values[outer.i % len(outer.values)])
+            outer.i += 1
+            outer.records.append(("fock", [] if mean is None else [float(x) for x in np.ravel(mean)], [float(x) for x in cov.ravel()], v))
+            return np.full((1 if not shots else int(shots), cov.shape[0] // 2), v, dtype=int)
+        _gb.hafnian_sample_state = fake_haf
         return self
 
     def __exit__(self, *a):
         np.random.multivariate_normal = self.orig
         np.random.normal = self.orig_normal
+        self._gb.hafnian_sample_state = self.orig_haf
+
+
+def fock_value(v):
+    """Photon number injected for the real-valued injection v."""
+    return int(abs(v) * 10) % 4
 
 
 def run_plain(nmodes, cmds, inj, strip_meas=False):
@@ -358,6 +384,8 @@ def rec_close(a, b, tol=1e-6):
         if x[0] == "hom":
             if abs(x[1] - y[1]) > tol * max(1, abs(x[1])) or abs(x[2] - y[2]) > tol * max(1, abs(x[2])):
                 return False
+        elif len(x[1]) != len(y[1]) or len(x[2]) != len(y[2]):
+            return False
         else:
             if not (np.allclose(x[1], y[1], atol=tol) and np.allclose(x[2], y[2], atol=tol)):
                 return False
@@ -387,7 +415,7 @@ class Consts:
 def enc_param(pv, consts):
     if isinstance(pv, dict):
         if "expr" in pv:
-            return "PExpr %d %d" % (pv["expr"], pv["p"])
+            return "PExpr %d %d" % (pv["expr"], pv["p"] + 16 * pv.get("p2", 0))     # two loop variables packed into one id
         return "PSym %d" % pv["p"]
     return "PNum %d" % consts.id(pv)
 
@@ -431,7 +459,7 @@ def dec_ucmds(vals, spec, consts):
             elif tag == 1:
                 pp.append(float(spec["arrays"][k][t]))
             else:
-                pp.append(float(expr_value(v, spec["arrays"][k][t])))
+                pp.append(float(expr_value(v, spec["arrays"][k % 16][t], spec["arrays"][k // 16][t])))
         if NAMES[op] == "Fouriergate":
             pp = []
         out.append([NAMES[op], pp, list(modes), bool(dag), bool(sel)])
@@ -535,6 +563,7 @@ def correspondence(ctx):
     corr_options(ctx)
     corr_reshape(ctx)
     corr_delays(ctx)
+    corr_vacpad(ctx)
 
 
 def corr_unroll(ctx):
@@ -649,7 +678,13 @@ def corr_options(ctx):
     for _ in range(n_cases):
         spec = gen_spec(rng, allow_expr=False, max_T=4, max_N=3, single_band=True, names=HIST_NAMES, shift_kinds=("default",))
         hist = gen_history(rng, 4) if rng.random() < 0.85 else []
-        kw = {"space_unroll": rng.random() < 0.5, "shots": rng.choice([None, 1, 1, 2, 3]), "crop": rng.random() < 0.4}
+        kw = {"space_unroll": rng.random() < 0.5, "crop": rng.random() < 0.4}
+        # shots may come from the kwargs, from program.run_options, from both (kwargs win) or from neither (default 1)
+        src = rng.choice(["kw", "kw", "ro", "both", "none"])
+        if src in ("kw", "both"):
+            kw["shots"] = rng.choice([None, 1, 1, 2, 3])
+        ro = {"shots": rng.choice([None, 1, 2, 3])} if src in ("ro", "both") else {}
+        kw["_ro"] = ro
         cases.append((spec, hist, kw))
     impl = []
     for spec, hist, kw in cases:
@@ -666,14 +701,15 @@ def corr_options(ctx):
             cropv = 0
             kw["crop"] = False
         import warnings as _w
+        prog.run_options = dict(kw["_ro"])
         with _w.catch_warnings():
             _w.simplefilter("ignore")
-            opts = BaseEngine.get_tdm_options(prog, **kw)
+            opts = BaseEngine.get_tdm_options(prog, **{k: v for k, v in kw.items() if k != "_ro"})
         m = opts["modes"]
         impl.append((obs_prog_state(prog, rolled_ids), None if m is None else (m.start, m.stop), opts["shots"] is not None, bool(opts["received_rolled"]), cropv))
         pre = [c[0] for c in hist]
         ctx.case({"kind": "options", "spec": spec, "hist": hist, "kw": kw}, nontrivial=len(spec["arrays"][0]) >= 2 and any(x in pre for x in ("unroll", "space_unroll")),
-                 bucket="options:%s:%s" % ("space" if kw["space_unroll"] else "shift", "none" if kw["shots"] is None else "shots"))
+                 bucket="options:%s:%s" % ("space" if kw["space_unroll"] else "shift", ("kw" if "shots" in kw else "") + ("ro" if kw["_ro"] else "") or "default"))
     SH = 150
     for si in range(0, len(cases), SH):
         lines = [HEADER]
@@ -682,9 +718,9 @@ def corr_options(ctx):
             consts = Consts()
             constss.append(consts)
             T = len(spec["arrays"][0])
-            lines.append("Eval vm_compute in obs_options %s %s %d %s %s %s %s %s %d." % (
+            lines.append("Eval vm_compute in obs_options %s %s %d %s %s %s %s %s %s %d." % (
                 coq.coq_list(spec["N"]), enc_shift(spec["shift"]), T, enc_cmds(spec, consts), coq.coq_list([enc_call(c) for c in hist]),
-                coq.coq_bool(kw["space_unroll"]), "None" if kw["shots"] is None else "(Some %d)" % kw["shots"], coq.coq_bool(kw["crop"]), im[4]))
+                coq.coq_bool(kw["space_unroll"]), _optopt(kw, "shots"), _optopt(kw["_ro"], "shots"), coq.coq_bool(kw["crop"]), im[4]))
         ok, vals, raw = ctx.coq_eval("cases_options_%d" % (si // SH), "\n".join(lines))
         if not ok or len(vals) != len(constss):
             ctx.obligation("correspondence:options:shard%d" % (si // SH), False, raw)
@@ -694,7 +730,8 @@ def corr_options(ctx):
             mm = (dec_state(stv, spec, consts), (int(lo), int(hi)) if has_m else None, bool(truthy), bool(rr))
             ii = (im[0], im[1], im[2], im[3])
             if not _state_close(mm[0], ii[0]) or mm[1:] != ii[1:]:
-                data = {"check": "runmatrix", "spec": spec, "prior": hist, "kw": kw, "inj": [0.3, -0.5, 0.8, 0.1, -0.9, 0.4, 0.7, -0.2]}
+                kwe = {k: v for k, v in kw.items() if k != "_ro"}
+                data = {"check": "runmatrix", "spec": spec, "prior": hist, "kw": kwe, "ro": kw["_ro"], "inj": [0.3, -0.5, 0.8, 0.1, -0.9, 0.4, 0.7, -0.2]}
                 c2 = _Collector()
                 if run_data(c2, data):
                     for sig, what, d in c2.items:
@@ -705,6 +742,13 @@ def corr_options(ctx):
                                      "get_tdm_options differs (impl, model): modes %s vs %s, shots-flag %s vs %s, received_rolled %s vs %s, state %s" % (
                                          ii[1], mm[1], ii[2], mm[2], ii[3], mm[3], str(diff)[:300]), data)
     ctx.traces += len(cases)
+
+
+def _optopt(d, key):
+    """Python dict entry -> Coq option (option nat): absent key / value None / value k."""
+    if key not in d:
+        return "None"
+    return "(Some None)" if d[key] is None else "(Some (Some %d))" % d[key]
 
 
 def _state_close(a, b):
@@ -790,7 +834,7 @@ def corr_reshape(ctx):
                              {"check": "reshape", "N": N, "T": T, "modes": modes, "sd": {str(k): v for k, v in sd.items()}})
 
 
-def gen_loop_spec(rng, meas="MeasureFock", max_T=7):
+def gen_loop_spec(rng, meas="MeasureFock", max_T=7, odd=0.0):
     """Single-band program with 0-3 delay loops in the Borealis layout (loop i couples positions differing by delay i)."""
     nloops = rng.randint(0, 3)
     delays = [rng.randint(1, 4) for _ in range(nloops)]
@@ -798,6 +842,9 @@ def gen_loop_spec(rng, meas="MeasureFock", max_T=7):
     T = rng.randint(1, max_T)
     pos = [Nn - 1 - sum(delays[:i]) for i in range(nloops + 1)]
     arrays = [[rng.choice([0, 0, 0.5, 1.1]) for _ in range(T)] for _ in range(max(nloops, 1))]
+    if rng.random() < 0.6:
+        # vacuum-padded shape: a block of zeros followed by non-zero values
+        arrays = [[0] * z + [rng.choice([0.5, 1.1, 0.8]) for _ in range(T - z)] for z in [rng.randint(0, T) if rng.random() < 0.7 else 0 for _ in arrays]]
     if rng.random() < 0.3 and arrays:
         arrays[0] = [0] * T
     cmds = [["Sgate", [0.3, 0.0], [Nn - 1], {"dag": False, "sel": None}]]
@@ -808,24 +855,38 @@ def gen_loop_spec(rng, meas="MeasureFock", max_T=7):
         second = {"p": i} if rng.random() < 0.2 else 0.0
         first = {"p": i} if rng.random() < 0.8 else 0.4
         cmds.append(["BSgate", [first, second], [a, b], {"dag": False, "sel": None}])
+    N = [Nn]
+    if rng.random() < odd and Nn >= 2:
+        # an extra beamsplitter whose range may overlap all the others ("nested loops" guard), operands in either order
+        a, b = rng.sample(range(Nn), 2)
+        cmds.append(["BSgate", [0.4, 0.0], [a, b], {"dag": False, "sel": None}])
     if meas:
         cmds.append([meas, [0.0] if meas == "MeasureHomodyne" else [], [0], {"dag": False, "sel": None}])
-    return {"N": [Nn], "arrays": arrays, "shift": "default", "cmds": cmds}, nloops
+    if rng.random() < odd / 2:
+        # a second spatial mode (guard: delays / crop are not implemented for more than one)
+        N = [Nn, rng.randint(1, 2)]
+        cmds.append([meas or "MeasureFock", [0.0] if meas == "MeasureHomodyne" else [], [Nn], {"dag": False, "sel": None}])
+    return {"N": N, "arrays": arrays, "shift": "default", "cmds": cmds}, nloops
 
 
 def corr_delays(ctx):
     rng = ctx.rng
-    n_cases = ctx.budget(80, 600)
+    n_cases = ctx.budget(100, 800)
     lines = [HEADER]
     cases, impl = [], []
     for _ in range(n_cases):
-        spec, nloops = gen_loop_spec(rng)
+        spec, nloops = gen_loop_spec(rng, odd=0.35)
         arrays, cmds = spec["arrays"], spec["cmds"]
         prog = build_tdm(spec)
         try:
-            ri = ("ok", [int(x) for x in prog.get_delays()], int(prog.get_crop_value()))
+            dl = [int(x) for x in prog.get_delays()]
         except NotImplementedError:
-            ri = ("nested",)
+            dl = None
+        try:
+            cv = int(prog.get_crop_value())
+        except NotImplementedError:
+            cv = None
+        ri = (dl, cv)
         bs = [(c[2][0], c[2][1]) for c in cmds if c[0] == "BSgate"]
         arrs = []
         for c in cmds:
@@ -836,21 +897,209 @@ def corr_delays(ctx):
                         break
         cases.append((spec, bs, arrs))
         impl.append(ri)
-        ctx.case({"kind": "delays", "spec": spec}, nontrivial=nloops >= 2, bucket="delays:%d" % nloops)
-        lines.append("Eval vm_compute in (get_delays %s, crop_value 0 %s (get_delays %s))." % (
-            coq.coq_list(["(%d, %d)" % ab for ab in bs]),
-            coq.coq_list([coq.coq_list(a, coq.coq_bool) for a in arrs]),
-            coq.coq_list(["(%d, %d)" % ab for ab in bs])))
+        ctx.case({"kind": "delays", "spec": spec}, nontrivial=nloops >= 2, bucket="delays:%d%s" % (nloops, "" if dl is not None else ":guard"))
+        lines.append("Eval vm_compute in obs_delays %d %s %s." % (
+            len(spec["N"]), coq.coq_list(["(%d, %d)" % ab for ab in bs]), coq.coq_list([coq.coq_list(a, coq.coq_bool) for a in arrs])))
     ok, vals, raw = ctx.coq_eval("cases_delays", "\n".join(lines))
     if not ok or len(vals) != len(cases):
         ctx.obligation("correspondence:delays", False, raw)
         return
     ctx.traces += len(cases)
     for (spec, bs, arrs), ri, v in zip(cases, impl, vals):
-        if ri[0] == "nested":
-            continue
-        if (list(v[0]), int(v[1])) != (ri[1], ri[2]):
-            ctx.disagreement("corr:delays", "get_delays/get_crop_value differ: impl %s model %s" % (ri, v), {"check": "delays", "spec": spec})
+        okm, dm, cm = v
+        rm = (list(dm), int(cm)) if okm else (None, None)
+        if rm != ri:
+            data = {"check": "crop", "spec": spec, "inj": [0.3, -0.5, 0.8, 0.1, -0.9, 0.4, 0.7, -0.2], "space": False}
+            c2 = _Collector()
+            if ri[1] is not None and len(spec["N"]) == 1 and run_data(c2, data):
+                for sig, what, d in c2.items:
+                    ctx.counterexample(sig, what, d)
+            else:
+                ctx.disagreement("corr:delays", "get_delays/get_crop_value (delays, crop; None = NotImplementedError) differ: impl %s model %s" % (ri, rm), {"check": "delays", "spec": spec})
+
+
+# --------------------------------------------------------------------------------------------
+# tdm/utils.py: vacuum_padding
+
+def gen_gate_args(rng, padded_shape=False):
+    nloops = rng.randint(1, 3)
+    delays = [rng.randint(1, 5) for _ in range(nloops)]
+    L = rng.randint(1, 6)
+    def bs_list():
+        u = rng.random()
+        if u < 0.15:
+            return [0] * L
+        z = rng.randint(0, L) if rng.random() < 0.6 else 0
+        tail = [rng.choice([0.5, 1.1, 0.8, 0.3]) for _ in range(L - z)]
+        if not padded_shape and rng.random() < 0.3 and tail:
+            tail[rng.randrange(len(tail))] = 0
+        return [0] * z + tail
+    loops = {i: {"Rgate": [round(rng.uniform(-3, 3), 3) if rng.random() < 0.8 else 0 for _ in range(L)], "BSgate": bs_list()} for i in range(nloops)}
+    sg = [rng.choice([0.3, 0.5, -0.4, 0.25]) for _ in range(L)]
+    if not padded_shape and rng.random() < 0.1:
+        sg = 0.4        # a single number: documented to be left alone
+    return {"Sgate": sg, "loops": loops}, delays
+
+
+def padded_program_spec(ga, delays):
+    """The Borealis-layout TDM program driven by (padded) gate arguments."""
+    nl = len(delays)
+    Nn = sum(delays) + 1
+    pos = [Nn - 1 - sum(delays[:i]) for i in range(nl + 1)]
+    F = {"dag": False, "sel": None}
+    arrays = [list(ga["Sgate"])]
+    cmds = [["Sgate", [{"p": 0}, 0.0], [pos[0]], F]]
+    for i in range(nl):
+        arrays += [list(ga["loops"][i]["Rgate"]), list(ga["loops"][i]["BSgate"])]
+        cmds.append(["Rgate", [{"p": 2 * i + 1}], [pos[i]], F])
+        cmds.append(["BSgate", [{"p": 2 * i + 2}, math.pi / 2], [pos[i + 1], pos[i]], F])
+    cmds.append(["MeasureHomodyne", [0.0], [0], F])
+    return {"N": [Nn], "arrays": arrays, "shift": "default", "cmds": cmds}
+
+
+def vacpad_check(ga, delays):
+    """Predicates on tdm.utils.vacuum_padding: input untouched; every list grows by exactly `crop` zeros (all lists keep one
+    common length); the program driven by the padded arguments has get_crop_value() == crop; and, for arguments of the
+    open-then-coupled shape, `crop` is the time bin in which the first light reaches the detector."""
+    from strawberryfields.tdm import utils as tdmutils
+    found = []
+    before = copy.deepcopy(ga)
+    try:
+        out = tdmutils.vacuum_padding(ga, delays=list(delays))
+    except Exception as e:
+        return [("vacuum_padding:raises:" + type(e).__name__, "vacuum_padding raised %r" % e)]
+    if ga != before:
+        found.append(("vacuum_padding:input-mutated", "vacuum_padding changed its input dictionary"))
+    crop = out.get("crop")
+    if not isinstance(ga["Sgate"], list):
+        return found
+    L = len(ga["Sgate"])
+    lens = {"Sgate": len(out["Sgate"])}
+    for i in ga["loops"]:
+        for g in ("Rgate", "BSgate"):
+            lens["%s%d" % (g, i)] = len(out["loops"][i][g])
+    if any(v != L + crop for v in lens.values()):
+        found.append(("vacuum_padding:lengths", "padded lists do not all have length %d + crop %s: %s" % (L, crop, lens)))
+        return found
+    # the original values must survive as one contiguous block, surrounded by zeros only
+    def block_ok(o, new):
+        for st in range(len(new) - len(o) + 1):
+            if list(new[st:st + len(o)]) == list(o) and all(v == 0 for v in list(new[:st]) + list(new[st + len(o):])):
+                return True
+        return False
+    for name, o, new in [("Sgate", ga["Sgate"], out["Sgate"])] + [("%s%d" % (g, i), ga["loops"][i][g], out["loops"][i][g]) for i in ga["loops"] for g in ("Rgate", "BSgate")]:
+        if not block_ok(o, new):
+            found.append(("vacuum_padding:values", "%s is not its original surrounded by zeros: %s -> %s" % (name, o, new)))
+            return found
+    # the Rgate and BSgate lists of one loop must be shifted by the same amount (they act on the same pulses);
+    # compared through the position of the original block whenever it is unambiguous
+    spec = padded_program_spec(out, delays)
+    try:
+        c2 = int(build_tdm(spec).get_crop_value())
+    except Exception as e:
+        return found + [("vacuum_padding:program-raises:" + type(e).__name__, "get_crop_value of the padded program raised %r" % e)]
+    if c2 != crop:
+        found.append(("vacuum_padding:crop-vs-get_crop_value", "vacuum_padding says crop=%s, the program built from its output says %s" % (crop, c2)))
+        return found
+    def prefix_zero(a):
+        z = next((i for i, v in enumerate(a) if v != 0), len(a))
+        return all(v != 0 for v in a[z:])
+    if all(prefix_zero(ga["loops"][i]["BSgate"]) for i in ga["loops"]) and all(v != 0 for v in ga["Sgate"]):
+        fl = first_light(spec)
+        T = L + crop
+        if fl != min(crop, T):
+            found.append(("vacuum_padding:first-light", "crop=%s but with the padded arguments the first light reaches the detector in time bin %d" % (crop, fl)))
+            return found
+        # and the padding must not delay the gates of a loop beyond the arrival of the first pulse: with the padded
+        # arguments the k-th pulse meets the k-th original Rgate/BSgate value of every loop -- checked physically by
+        # comparing with the unpadded arguments applied by hand to the pulses as they arrive
+        ref = reference_padding(ga, delays)
+        if ref is not None:
+            for i in ga["loops"]:
+                for g in ("Rgate", "BSgate"):
+                    if list(out["loops"][i][g]) != ref["loops"][i][g]:
+                        found.append(("vacuum_padding:alignment:%s" % g, "loop %d %s list is padded to %s, expected %s (prologue = arrival time of the first pulse at that loop)" % (
+                            i, g, out["loops"][i][g], ref["loops"][i][g])))
+                        return found
+            if list(out["Sgate"]) != ref["Sgate"]:
+                found.append(("vacuum_padding:alignment:Sgate", "Sgate list padded to %s, expected %s" % (out["Sgate"], ref["Sgate"])))
+    return found
+
+
+def reference_padding(ga, delays):
+    """Independent computation of the padding from the stated purpose: loop i starts acting when the first pulse arrives
+    there; a loop that is open for z bins (z leading zeros) delays the first light by min(z, delay), a loop that stays
+    open delays it by its full delay.  Only for arguments of the open-then-coupled shape."""
+    arr, pro = 0, []
+    for i in sorted(ga["loops"]):
+        a = ga["loops"][i]["BSgate"]
+        pro.append(arr)
+        z = next((k for k, v in enumerate(a) if v != 0), None)
+        arr += delays[i] if z is None else min(z, delays[i])
+    pad = lambda l, p: [0] * p + list(l) + [0] * (arr - p)
+    return {"Sgate": pad(ga["Sgate"], 0), "crop": arr,
+            "loops": {i: {"Rgate": pad(ga["loops"][i]["Rgate"], pro[i]), "BSgate": pad(ga["loops"][i]["BSgate"], pro[i])} for i in sorted(ga["loops"])}}
+
+
+def corr_vacpad(ctx):
+    """Model coq/C13/Model.v vacuum_padding vs tdm.utils.vacuum_padding, exact."""
+    from strawberryfields.tdm import utils as tdmutils
+    rng = ctx.rng
+    n_cases = ctx.budget(120, 1000)
+    lines = [HEADER, "Open Scope Z_scope."]
+    cases, impl, tables = [], [], []
+    for _ in range(n_cases):
+        ga, delays = gen_gate_args(rng)
+        if not isinstance(ga["Sgate"], list):
+            ga["Sgate"] = [0.3] * len(ga["loops"][0]["BSgate"])
+        tab = {}
+        cid = lambda v: 0 if v == 0 else tab.setdefault(repr(float(v)), len(tab) + 1)
+        out = tdmutils.vacuum_padding(copy.deepcopy(ga), delays=list(delays))
+        enc = lambda l: coq.coq_list([cid(v) for v in l], coq.coq_Z)
+        lines.append("Eval vm_compute in vacuum_padding %s %s %s." % (
+            enc(ga["Sgate"]), coq.coq_list(["(%s, %s)" % (enc(ga["loops"][i]["Rgate"]), enc(ga["loops"][i]["BSgate"])) for i in sorted(ga["loops"])]),
+            coq.coq_list(["%d%%nat" % d for d in delays])))
+        impl.append(([cid(v) for v in out["Sgate"]], [([cid(v) for v in out["loops"][i]["Rgate"]], [cid(v) for v in out["loops"][i]["BSgate"]]) for i in sorted(out["loops"])], int(out["crop"])))
+        cases.append((ga, delays))
+        ctx.case({"kind": "vacpad", "gate_args": {"Sgate": ga["Sgate"], "loops": {str(i): v for i, v in ga["loops"].items()}}, "delays": delays},
+                 nontrivial=len(delays) >= 2, bucket="vacpad:%dloops" % len(delays))
+    ok, vals, raw = ctx.coq_eval("cases_vacpad", "\n".join(lines))
+    if not ok or len(vals) != len(cases):
+        ctx.obligation("correspondence:vacuum_padding", False, raw)
+        return
+    ctx.traces += len(cases)
+    for (ga, delays), im, v in zip(cases, impl, vals):
+        sgm, loopsm, totm = v
+        mm = ([int(x) for x in sgm], [([int(x) for x in a], [int(x) for x in b]) for a, b in loopsm], int(totm))
+        if mm != im:
+            data = {"check": "vacpad", "gate_args": {"Sgate": ga["Sgate"], "loops": {str(i): v for i, v in ga["loops"].items()}}, "delays": delays}
+            f = vacpad_check(copy.deepcopy(ga), delays)
+            if f:
+                for sig, what in f:
+                    ctx.counterexample(sig, what, data)
+            else:
+                ctx.disagreement("corr:vacuum_padding", "vacuum_padding differs (value ids): impl %s model %s" % (str(im)[:300], str(mm)[:300]), data)
+
+
+def search_vacpad(ctx):
+    rng = ctx.rng
+    for _ in range(ctx.budget(60, 600)):
+        ga, delays = gen_gate_args(rng, padded_shape=rng.random() < 0.7)
+        data = {"check": "vacpad", "gate_args": {"Sgate": ga["Sgate"], "loops": {str(i): v for i, v in ga["loops"].items()}}, "delays": delays}
+        ctx.case({"kind": "vacpad-search", **data}, nontrivial=len(delays) >= 2, bucket="search:vacpad")
+        for sig, what in vacpad_check(ga, delays):
+            ctx.counterexample(sig, what, data)
+
+
+def first_light(spec, shots=1):
+    """Index of the first time bin whose measured pulse is not vacuum in the explicit fresh-mode loop (number of bins if none):
+    the physical meaning of the crop value.  Needs a single measured position, homodyne."""
+    nm, loop, meas = hand_loop(spec, shots)
+    _, rec = run_plain(nm, loop, [0.0])
+    for i, r in enumerate(rec):
+        if abs(r[1]) > 1e-9 or abs(r[2] - 1.0) > 1e-6:
+            return i
+    return len(rec)
 
 
 def crop_check(ctx, spec, inj, space):
@@ -862,6 +1111,23 @@ def crop_check(ctx, spec, inj, space):
         c = int(build_tdm(spec).get_crop_value())
     except NotImplementedError:
         return found
+    # physical meaning of the crop value: the number of vacuum pulses reaching the detector before the first light
+    # (meaningful for gate arguments of the vacuum-padded shape: each beamsplitter array is zeros followed by non-zeros)
+    def _prefix_zero(a):
+        z = next((i for i, v in enumerate(a) if v != 0), len(a))
+        return all(v != 0 for v in a[z:])
+    bsc = [x for x in spec["cmds"] if x[0] == "BSgate"]
+    if (len(spec["N"]) == 1 and all(x[0] in ("Sgate", "BSgate", "Rgate", "MeasureHomodyne") for x in spec["cmds"])
+            and all(_prefix_zero(a) for a in spec["arrays"])):
+        try:
+            fl = first_light(spec)
+        except Exception:
+            fl = None
+        if fl is not None and min(c, T) != fl:
+            const_bs = any(not any(isinstance(v, dict) for v in x[1]) for x in bsc)
+            found.append(("crop:first-light%s" % (":constant-beamsplitter" if const_bs else ""),
+                          "get_crop_value() = %d but the first non-vacuum pulse reaches the detector in time bin %d (of %d)" % (c, fl, T)))
+            return found
     try:
         if not space:
             with Inject(inj):
@@ -1204,13 +1470,8 @@ def engine_check(ctx, spec, shots, inj, space=False):
             res = eng.run(prog, **kw)
     except Exception as e:
         sig = raise_signature(spec, e, "engine:run%s" % (":space" if space else ""))
-        mset = set()
-        for c in spec["cmds"]:
-            if OPS[c[0]][2]:
-                mset.add(c[2][0])
-        if not space and list(mset) != sorted(mset) and "reshape_samples" in _tb_functions(e):
-            sig = "engine:samples_dict-keys:measured_modes-set-order"
-        if space and isinstance(e, IndexError) and "reshape_samples" in _tb_functions(e):
+        if space and isinstance(e, IndexError) and "reshape_samples" in _tb_functions(e) and shots * T > sum(N):
+            # known: _get_mode_order assumes the register-shifting order; fails as soon as timebins > concurrent modes
             sig = "engine:space_unroll:reshape-IndexError"
         elif isinstance(e, NotImplementedError) and "Post-selection" in str(e):
             return found
@@ -1249,6 +1510,8 @@ def engine_check(ctx, spec, shots, inj, space=False):
             v = cmd[4]
         else:
             v = inj[j % len(inj)]
+            if cmd[0] == "MeasureFock":
+                v = fock_value(v)
             j += 1
         want[g // T, positions.index(pos), g % T] = v
     if samples.shape != want.shape:
@@ -1263,12 +1526,13 @@ def engine_check(ctx, spec, shots, inj, space=False):
     except Exception:
         bad_layout = True
     bad_laws = not rec_close(rec_s, rec_l)
+    if not space and any(c[0] == "MeasureFock" for c in spec["cmds"]):
+        # the gaussian backend does not reset a mode after a Fock measurement: register shifting is documented not to
+        # work with Fock measurements, so only the sample bookkeeping is judged here
+        bad_laws = False
     if bad_layout or bad_laws:
         if space and shots > 1:
             sig = "space_unroll:shots>1"
-        elif bad_layout and not space and list(prog_measured) != sorted(prog_measured):
-            # measured_modes is list(set): the set iteration order is not the band order once indices reach 8
-            sig = "engine:samples_dict-keys:measured_modes-set-order"
         elif flag_sig is not None:
             sig = flag_sig
         elif bad_layout:
@@ -1371,6 +1635,10 @@ def search(ctx):
         if has_flags(spec):
             shots = 1
         inj = inj_values(rng)
+        if rng.random() < 0.2:       # photon-number measurements: other value type / code path in _run_program and reshape_samples
+            for c in spec["cmds"]:
+                if c[0] == "MeasureHomodyne":
+                    c[0], c[1], c[3] = "MeasureFock", [], {"dag": False, "sel": None}
         T = len(spec["arrays"][0])
         data = {"check": "engine", "spec": spec, "shots": shots, "inj": inj, "space": False}
         ctx.case({"kind": "engine", "spec": spec, "shots": shots}, nontrivial=T >= 2 and (shots >= 2 or len(spec["N"]) >= 2), bucket="search:engine")
@@ -1390,10 +1658,23 @@ def search(ctx):
         data = {"check": "engine", "spec": spec, "shots": shots, "inj": inj, "space": True}
         for sig, what in engine_check(ctx, spec, shots, inj, space=True):
             ctx.counterexample(sig, what, data)
+        # space-unrolled run that survives reshape_samples (timebins <= concurrent modes), homodyne or Fock
+        sp2 = copy.deepcopy(spec)
+        n0 = sp2["N"][0]
+        sp2["arrays"] = [a[:n0] for a in sp2["arrays"]]
+        if rng.random() < 0.5:
+            for c in sp2["cmds"]:
+                if c[0] == "MeasureHomodyne":
+                    c[0], c[1] = "MeasureFock", []
+        data = {"check": "engine", "spec": sp2, "shots": 1, "inj": inj, "space": True}
+        for sig, what in engine_check(ctx, sp2, 1, inj, space=True):
+            ctx.counterexample(sig, what, data)
     # 6. engine-side crop handling
     search_crop(ctx)
     # 7. run options x prior program states
     search_run_matrix(ctx)
+    # 8. tdm.utils.vacuum_padding
+    search_vacpad(ctx)
 
 
 def search_crop(ctx):
@@ -1461,7 +1742,7 @@ def _engine_diff(got, want):
     return None
 
 
-def run_matrix_case(spec, prior, kw, inj):
+def run_matrix_case(spec, prior, kw, inj, ro=None):
     """eng.run(prog, **kw) on a program brought into a prior state by `prior` must equal the same run on a freshly
     built program brought to the equivalent state by the most direct route:
       * the executed form is space-unrolled iff space_unroll=True or the user space-unrolled it (and did not roll back);
@@ -1471,9 +1752,15 @@ def run_matrix_case(spec, prior, kw, inj):
     (Fresh rolled runs are themselves compared with the explicit fresh-mode loop by engine_check / crop_check.)"""
     prog = build_tdm(spec)
     _apply_calls(prog, prior)
+    if ro:
+        prog.run_options = dict(ro)
     pre_space = prog.space_unrolled_circuit is not None
     pre_unr = prog.unrolled_circuit is not None
     pre = "space-unrolled" if pre_space else ("unrolled" if pre_unr else "rolled")
+    given = dict(kw)
+    kw = dict(ro or {})
+    kw.update(given)            # documented priority: keyword arguments of run() over program.run_options
+    kw.setdefault("shots", 1)
     S, k = bool(kw.get("space_unroll")), kw.get("shots")
     if pre_space:
         space_eff, count = True, prog._unrolled_shots
@@ -1486,12 +1773,13 @@ def run_matrix_case(spec, prior, kw, inj):
     rkw["space_unroll"] = space_eff
     if (k or 1) != count:
         (ref.space_unroll if space_eff else ref.unroll)(count)
-    got = _engine_obs(prog, kw, inj)
+    got = _engine_obs(prog, given, inj)
     want = _engine_obs(ref, rkw, inj)
     d = _engine_diff(got, want)
     if d is None:
         return []
-    sig = "engine:run-options:%s:%s:space_unroll=%s:shots=%s%s" % (d, pre, S, "None" if k is None else ("1" if k == 1 else "k"), ":crop" if kw.get("crop") else "")
+    sig = "engine:run-options:%s:%s:space_unroll=%s:shots=%s%s%s" % (d, pre, S, "None" if k is None else ("1" if k == 1 else "k"), ":crop" if kw.get("crop") else "",
+                                                                     "" if not ro else (":via-run_options" if not given else ":run_options-vs-kwargs"))
     if pre == "unrolled" and S and got[0] == "err" and (
             (got[1] == "AttributeError" and "Backend' object has no attribute" in got[2]) or
             (got[1] == "NotImplementedError" and "has not been implemented" in got[2])):
@@ -1500,8 +1788,8 @@ def run_matrix_case(spec, prior, kw, inj):
     elif space_eff and count > 1 and d in ("state", "samples", "laws", "samples_dict", "samples-shape"):
         # both sides space-unroll for 2+ shots: the wrapped second shot (known finding) depends on how the rolled circuit was split into commands
         sig = "space_unroll:shots>1"
-    return [(sig, "eng.run(prog, %s) on a %s program (prior calls %s) differs from the same run on a fresh program in '%s': got %s, expected %s" % (
-        kw, pre, prior, d, _engine_brief(got), _engine_brief(want)))]
+    return [(sig, "eng.run(prog, %s) [program.run_options=%s] on a %s program (prior calls %s) differs from the same run on a fresh program in '%s': got %s, expected %s" % (
+        given, ro, pre, prior, d, _engine_brief(got), _engine_brief(want)))]
 
 
 def _engine_brief(o):
@@ -1527,9 +1815,21 @@ def search_run_matrix(ctx):
             if T > n:
                 spec["arrays"] = [a[:n] for a in spec["arrays"]]
         inj = inj_values(rng, 12)
+        cnt = 0
         for prior in PRIORS:
             for kw in RUN_OPTS:
                 if kw["crop"] and not loopy:
+                    continue
+                cnt += 1
+                via = cnt % 3        # 0: keyword arguments, 1: program.run_options only, 2: both, run_options carrying the opposite values
+                if via:
+                    ro = dict(kw) if via == 1 else {"space_unroll": not kw["space_unroll"], "shots": 2 if kw["shots"] != 2 else 1, "crop": False}
+                    given = {} if via == 1 else dict(kw)
+                    data = {"check": "runmatrix", "spec": spec, "prior": prior, "kw": given, "ro": ro, "inj": inj}
+                    ctx.case({"kind": "runmatrix", "spec": spec, "prior": prior, "kw": given, "ro": ro},
+                             nontrivial=len(spec["arrays"][0]) >= 2 and any(c[0] in ("unroll", "space_unroll") for c in prior), bucket="search:runmatrix:run_options")
+                    for sig, what in run_matrix_case(spec, prior, given, inj, ro=ro):
+                        ctx.counterexample(sig, what, data)
                     continue
                 data = {"check": "runmatrix", "spec": spec, "prior": prior, "kw": kw, "inj": inj}
                 ctx.case({"kind": "runmatrix", "spec": spec, "prior": prior, "kw": kw},
@@ -1566,8 +1866,11 @@ def run_data(ctx, d):
         f = space_state_check(ctx, d["spec"])
     elif chk == "crop":
         f = crop_check(ctx, d["spec"], d["inj"], d["space"])
+    elif chk == "vacpad":
+        ga = {"Sgate": d["gate_args"]["Sgate"], "loops": {int(i): v for i, v in d["gate_args"]["loops"].items()}}
+        f = vacpad_check(ga, d["delays"])
     elif chk == "runmatrix":
-        f = run_matrix_case(d["spec"], d["prior"], d["kw"], d["inj"])
+        f = run_matrix_case(d["spec"], d["prior"], d["kw"], d["inj"], ro=d.get("ro"))
     else:
         return False
     for sig, what in f:
